@@ -157,12 +157,16 @@ class Runtime:
                 itree, xtree = UNDEFINED, UNDEFINED
             else:
                 itree, xtree = rt.fresh('itemtree'), rt.fresh('indextree')
-            if isinstance(lpath, JArr):
-                ilv = JArr(list(lpath.items) + [index])
-            elif lpath is NULL or lpath is UNDEFINED:
-                ilv = NULL
-            else:
-                ilv = ('itempath', lpath, index)
+            def item_path(lp):
+                # runtime contract: lvaluePath ? [...lvaluePath, index] : null
+                if isinstance(lp, JArr):
+                    return JArr(list(lp.items) + [index])
+                if lp is NULL or lp is UNDEFINED:
+                    return NULL
+                if isinstance(lp, CondVal):
+                    return CondVal(lp.c, item_path(lp.a), item_path(lp.b))
+                return ('itempath', lp, index)
+            ilv = item_path(lpath)
             n.item, n.index, n.item_tree, n.index_tree, n.item_lvalue = item, index, itree, xtree, ilv
             nat = rt.children_natives(n, C)
             it.call(cb, [C, item, index, itree, xtree, ilv, nat['T'], nat['E'], nat['B'], nat['F'], nat['S'], nat['J']])
